@@ -706,7 +706,7 @@ package gmars
 //@   ensures runes(result) == runes(s) && len(s) >= runes(s) && len(result) >= runes(result) && (endsNL(s) ==> endsNL(result))
 //@ extern strings.HasPrefix
 //@   modifies nothing
-//@   ensures result == hasPrefix(s, prefix) && (result ==> runes(s) >= runes(prefix)) && (result && runes(s) == runes(prefix) ==> s == prefix)
+//@   ensures result == hasPrefix(s, prefix) && (result ==> runes(s) >= runes(prefix) && len(s) >= len(prefix)) && (result && runes(s) == runes(prefix) ==> s == prefix)
 //@ extern strings.Contains
 //@   modifies nothing
 //@   ensures result == contains(s, substr)
@@ -930,8 +930,13 @@ package gmars
 //@   ensures result.1 == nil ==> 0 - 2147483648 <= result.0 && result.0 <= 2147483647 && result.0 == exprVal(expr)
 //@ trusted (*compiler).loadSymbols
 //@   modifies c.values, c.labels, c.startExpr
-//@ trusted (*compiler).evaluateAssertions
+//@ func (*compiler).evaluateAssertions
+//@   panics [C05][C07]
+//@   requires c != nil
 //@   modifies nothing
+//@   loop 1
+//@     invariant 0 - 1 <= rangeindex && rangeindex < len(c.lines)
+//@     decreases len(c.lines) - rangeindex
 //@ trusted buildReferenceGraph
 //@   modifies nothing
 //@ trusted graphContainsCycle
@@ -1173,6 +1178,9 @@ package gmars
 //@   requires parserOK(p)
 //@   modifies p.*, p.lines[*], p.symbols[*], p.references[*], p.currentLine.labels[*], p.currentLine.a[*], p.currentLine.b[*]
 //@   ensures parserOK(p)
+//@   loop 1
+//@     invariant parserOK(p) && p.symbols == old(p.symbols) && p.references == old(p.references)
+//@     invariant (fresh(arr(p.currentLine.a)) || arr(p.currentLine.a) == old(arr(p.currentLine.a))) && (fresh(arr(p.currentLine.b)) || arr(p.currentLine.b) == old(arr(p.currentLine.b)))
 //@ func parseComment
 //@   panics [C05]
 //@   requires parserOK(p)
@@ -1188,6 +1196,9 @@ package gmars
 //@   requires parserOK(p)
 //@   modifies p.*, p.lines[*], p.symbols[*], p.references[*], p.currentLine.labels[*], p.currentLine.a[*], p.currentLine.b[*]
 //@   ensures parserOK(p)
+//@   loop 1
+//@     invariant parserOK(p) && p.symbols == old(p.symbols) && p.references == old(p.references)
+//@     invariant (fresh(arr(p.currentLine.a)) || arr(p.currentLine.a) == old(arr(p.currentLine.a))) && (fresh(arr(p.currentLine.b)) || arr(p.currentLine.b) == old(arr(p.currentLine.b)))
 //@ func parsePseudoOp
 //@   panics [C05]
 //@   requires parserOK(p)
@@ -1198,6 +1209,9 @@ package gmars
 //@   requires parserOK(p)
 //@   modifies p.*, p.lines[*], p.symbols[*], p.references[*], p.currentLine.labels[*], p.currentLine.a[*], p.currentLine.b[*]
 //@   ensures parserOK(p)
+//@   loop 1
+//@     invariant parserOK(p) && p.symbols == old(p.symbols) && p.references == old(p.references)
+//@     invariant (fresh(arr(p.currentLine.a)) || arr(p.currentLine.a) == old(arr(p.currentLine.a))) && (fresh(arr(p.currentLine.b)) || arr(p.currentLine.b) == old(arr(p.currentLine.b)))
 //@ func parseOp
 //@   panics [C05]
 //@   requires parserOK(p)
@@ -1213,6 +1227,9 @@ package gmars
 //@   requires parserOK(p)
 //@   modifies p.*, p.lines[*], p.symbols[*], p.references[*], p.currentLine.labels[*], p.currentLine.a[*], p.currentLine.b[*]
 //@   ensures parserOK(p)
+//@   loop 1
+//@     invariant parserOK(p) && p.symbols == old(p.symbols) && p.references == old(p.references)
+//@     invariant (fresh(arr(p.currentLine.a)) || arr(p.currentLine.a) == old(arr(p.currentLine.a))) && (fresh(arr(p.currentLine.b)) || arr(p.currentLine.b) == old(arr(p.currentLine.b)))
 //@ func parseComma
 //@   panics [C05]
 //@   requires parserOK(p)
@@ -1228,6 +1245,9 @@ package gmars
 //@   requires parserOK(p)
 //@   modifies p.*, p.lines[*], p.symbols[*], p.references[*], p.currentLine.labels[*], p.currentLine.a[*], p.currentLine.b[*]
 //@   ensures parserOK(p)
+//@   loop 1
+//@     invariant parserOK(p) && p.symbols == old(p.symbols) && p.references == old(p.references)
+//@     invariant (fresh(arr(p.currentLine.a)) || arr(p.currentLine.a) == old(arr(p.currentLine.a))) && (fresh(arr(p.currentLine.b)) || arr(p.currentLine.b) == old(arr(p.currentLine.b)))
 
 // symbol scanner
 //@ pure scannerOK(p *symbolScanner) = p != nil && p.lex != nil && p.symbols != nil
@@ -1261,3 +1281,125 @@ package gmars
 //@   requires scannerOK(p)
 //@   modifies p.*, p.symbols[*], p.labelBuf[*], p.valBuf[*]
 //@   ensures scannerOK(p)
+//@   loop 1
+//@     invariant scannerOK(p) && p.symbols == old(p.symbols) && (fresh(arr(p.valBuf)) || arr(p.valBuf) == old(arr(p.valBuf)))
+//@   loop 2
+//@     invariant scannerOK(p) && p.symbols == old(p.symbols) && 0 - 1 <= rangeindex && rangeindex < len(p.labelBuf)
+
+// FOR expander state functions (sends are skips, see above)
+//@ pure forOK(f *forExpander) = f != nil && f.lex != nil
+//@ func (*forExpander).next
+//@   panics [C05]
+//@   requires forOK(p)
+//@   modifies p.atEOF, p.nextToken
+//@   ensures forOK(p)
+//@ func (*forExpander).emitConsume
+//@   panics [C05]
+//@   requires forOK(f)
+//@   modifies f.atEOF, f.nextToken
+//@   ensures forOK(f)
+//@ func forLine
+//@   panics [C05]
+//@   requires forOK(f)
+//@   modifies f.*, f.labelBuf[*], f.exprBuf[*], f.forContent[*]
+//@   ensures forOK(f)
+//@ func forConsumeLabels
+//@   panics [C05]
+//@   requires forOK(f)
+//@   modifies f.*, f.labelBuf[*], f.exprBuf[*], f.forContent[*]
+//@   ensures forOK(f)
+//@ func forConsumeEmitLine
+//@   panics [C05]
+//@   requires forOK(f)
+//@   modifies f.*, f.labelBuf[*], f.exprBuf[*], f.forContent[*]
+//@   ensures forOK(f)
+//@ func forConsumeExpression
+//@   panics [C05]
+//@   requires forOK(f)
+//@   modifies f.*, f.labelBuf[*], f.exprBuf[*], f.forContent[*]
+//@   ensures forOK(f)
+//@ func forInnerLine
+//@   panics [C05]
+//@   requires forOK(f)
+//@   modifies f.*, f.labelBuf[*], f.exprBuf[*], f.forContent[*]
+//@   ensures forOK(f)
+//@ func forInnerEmitConsumeLine
+//@   panics [C05]
+//@   requires forOK(f)
+//@   modifies f.*, f.labelBuf[*], f.exprBuf[*], f.forContent[*]
+//@   ensures forOK(f)
+//@ func forWriteLabelsEmitConsumeLine
+//@   panics [C05]
+//@   requires forOK(f)
+//@   modifies f.*, f.labelBuf[*], f.exprBuf[*], f.forContent[*]
+//@   ensures forOK(f)
+//@   loop 1
+//@     invariant forOK(f) && 0 - 1 <= rangeindex && rangeindex < len(f.labelBuf)
+//@     decreases len(f.labelBuf) - rangeindex
+//@ func forInnerEmitLabels
+//@   panics [C05]
+//@   requires forOK(f)
+//@   modifies f.*, f.labelBuf[*], f.exprBuf[*], f.forContent[*]
+//@   ensures forOK(f)
+//@   loop 1
+//@     invariant forOK(f) && 0 - 1 <= rangeindex && rangeindex < len(f.labelBuf) && f.labelBuf == old(f.labelBuf) && (fresh(arr(f.forContent)) || arr(f.forContent) == old(arr(f.forContent)))
+//@ func forInnerLabels
+//@   panics [C05]
+//@   requires forOK(f)
+//@   modifies f.*, f.labelBuf[*], f.exprBuf[*], f.forContent[*]
+//@   ensures forOK(f)
+//@   loop 1
+//@     invariant forOK(f) && 0 - 1 <= rangeindex && rangeindex < len(f.forLineLabelsToWrite) && f.forLineLabelsToWrite == old(f.forLineLabelsToWrite)
+//@ func forEmitConsumeStream
+//@   panics [C05]
+//@   requires forOK(f)
+//@   modifies f.atEOF, f.nextToken
+//@   loop 1
+//@     invariant forOK(f)
+
+// compile.go helpers
+//@ func exprEqual
+//@   panics [C05]
+//@   modifies nothing
+//@   loop 1
+//@     invariant 0 - 1 <= rangeindex && rangeindex < len(a) && len(a) == len(b)
+//@     decreases len(a) - rangeindex
+//@ trusted LexInput
+//@   modifies nothing
+//@   ensures result.1 == nil ==> len(result.0) >= 1
+//@ func (*compiler).evaluateAssertion
+//@   panics [C05][C07]
+//@   requires c != nil
+//@   modifies nothing
+// a program is accepted only if the assert condition does not evaluate to zero
+//@   ensures [C07] result == nil ==> exprVal(exprTokens) != 0
+//@ trusted ExpandAndEvaluate
+//@   modifies nothing
+//@   ensures result.1 == nil ==> 0 - 2147483648 <= result.0 && result.0 <= 2147483647
+//@ func forFor
+//@   panics [C05]
+//@   requires forOK(f)
+//@   modifies f.*, f.labelBuf[*], f.exprBuf[*], f.forContent[*], f.forLineLabelsToWrite[*]
+//@   ensures forOK(f)
+//@   loop 1
+//@     invariant forOK(f) && 0 - 1 <= rangeindex && rangeindex < len(f.exprBuf) && f.exprBuf == old(f.exprBuf) && fresh(arr(expr))
+//@     decreases len(f.exprBuf) - rangeindex
+//@   loop 2
+//@     invariant forOK(f) && 0 - 1 <= rangeindex && rangeindex < len(f.forLineLabels) && len(f.forLineLabelsToWrite) == len(f.forLineLabels) && fresh(arr(f.forLineLabelsToWrite))
+//@     decreases len(f.forLineLabels) - rangeindex
+//@ func forRof
+//@   panics [C05]
+//@   requires forOK(f) && f.forCount <= 2147483647
+//@   modifies f.atEOF, f.nextToken
+//@   ensures forOK(f)
+//@   loop 1
+//@     invariant forOK(f)
+//@   loop 2
+//@     invariant forOK(f) && 1 <= i && i <= 2147483648 && f.forCount == old(f.forCount)
+//@     decreases f.forCount + 1 - i
+//@   loop 3
+//@     invariant forOK(f) && 0 - 1 <= rangeindex && rangeindex < len(f.forContent) && 1 <= i && i <= f.forCount
+//@     decreases len(f.forContent) - rangeindex
+//@   loop 4
+//@     invariant forOK(f) && 0 - 1 <= rangeindex && rangeindex < len(f.forLineLabels)
+//@     decreases len(f.forLineLabels) - rangeindex
